@@ -181,6 +181,33 @@ theorem corenessOf_snd (kcore : ℕ → Out Int n) :
   unfold corenessOf
   simp
 
+theorem corenessOfBd_fst (kcore : ℕ → Out Int n) (v : Fin n) :
+    (corenessOfBd kcore).1 v =
+      lastHit (fun k => decide (k < 2 * n - 1) && decide (0 < colSum (kcore k).M v + rowSum (kcore k).M v))
+        (List.range (2 * n - 1)) := by
+  unfold corenessOfBd
+  simp only
+  congr 1
+  funext k
+  by_cases h : k < 2 * n - 1
+  · simp [h]
+  · simp [h]
+
+theorem corenessOfBd_snd (kcore : ℕ → Out Int n) :
+    (corenessOfBd kcore).2 = (List.finRange (2 * n - 1)).map fun k => (kcore k.val).kn := by
+  unfold corenessOfBd
+  simp
+
+/-- on a 0/1 matrix the plain row sum is the row's number of nonzero cells -/
+theorem rowSum_eq_count (M : AMat Int n) (h01 : ∀ i j, M.get i j = 0 ∨ M.get i j = 1) (v : Fin n) :
+    rowSum M v = ((Finset.univ.filter fun w => M.get v w ≠ 0).card : ℤ) := by
+  unfold rowSum
+  rw [sum_map_finRange, Finset.card_filter]
+  push_cast
+  apply Finset.sum_congr rfl
+  intro w _
+  rcases h01 v w with h | h <;> simp [h]
+
 /-- on a 0/1 matrix the plain column sum is the column's number of nonzero cells -/
 theorem colSum_eq_count (M : AMat Int n) (h01 : ∀ i j, M.get i j = 0 ∨ M.get i j = 1) (v : Fin n) :
     colSum M v = ((Finset.univ.filter fun w => M.get w v ≠ 0).card : ℤ) := by
